@@ -280,12 +280,14 @@ setup(const EVP_CIPHER *cph, const EVP_MD *md, jose_cfg_t *cfg,
     uint8_t key[EVP_CIPHER_key_length(cph) * 2];
     const char *aad = NULL;
     const char *prt = "";
+    size_t aadl = 0;
+    size_t prtl = 0;
 
     if (jose_b64_dec(json_object_get(cek, "k"), NULL, 0) != sizeof(key))
         return false;
 
-    if (json_unpack((json_t *) jwe, "{s?s,s?s}",
-                    "aad", &aad, "protected", &prt) < 0)
+    if (json_unpack((json_t *) jwe, "{s?s%,s?s%}",
+                    "aad", &aad, &aadl, "protected", &prt, &prtl) < 0)
         return false;
 
     i->cctx = EVP_CIPHER_CTX_new();
@@ -317,8 +319,8 @@ setup(const EVP_CIPHER *cph, const EVP_MD *md, jose_cfg_t *cfg,
 
     OPENSSL_cleanse(key, sizeof(key));
 
-    i->al += strlen(prt);
-    if (HMAC_Update(i->hctx, (void *) prt, strlen(prt)) <= 0)
+    i->al += prtl;
+    if (HMAC_Update(i->hctx, (void *) prt, prtl) <= 0)
         return false;
 
     if (aad) {
@@ -326,8 +328,8 @@ setup(const EVP_CIPHER *cph, const EVP_MD *md, jose_cfg_t *cfg,
         if (HMAC_Update(i->hctx, (void *) ".", 1) <= 0)
             return false;
 
-        i->al += strlen(aad);
-        if (HMAC_Update(i->hctx, (void *) aad, strlen(aad)) <= 0)
+        i->al += aadl;
+        if (HMAC_Update(i->hctx, (void *) aad, aadl) <= 0)
             return false;
     }
 
